@@ -27,7 +27,7 @@ class Group:
 
     def __init__(self, name, harness, entry, extract=(), enforce=None, replace=(), loops=False,
                  defines=None, cbmc=(), timeout=900, unwind=None, tags=(), instance=None,
-                 thorough_only=False, bounded=False, replay=None, nondet_static=False, note='', backend=None, gen=None):
+                 thorough_only=False, bounded=False, replay=None, nondet_static=False, note='', backend=None, gen=None, enforce_rec=False):
         self.name = name
         self.harness = harness
         self.entry = entry
@@ -45,6 +45,7 @@ class Group:
         self.bounded = bounded      # bounded stand-in: never counted as proved
         self.replay = replay        # name of a native replay routine
         self.note = note
+        self.enforce_rec = enforce_rec   # recursive function: --enforce-contract-rec
         self.gen = dict(gen or {})  # generated include files: name -> text (shape-dependent macro expansions)
         self.backend = backend      # None = SAT (minisat2); 'cvc5' | 'z3' = SMT2 back end
 
@@ -204,6 +205,34 @@ def contract_loop_macros(cname):
     return len(ks)
 
 
+def parse_cbmc_text(out):
+    results = []
+    msgs = []
+    cur_file, cur_fn = '', ''
+    saw_results = False
+    for ln in out.split('\n'):
+        m = re.match(r'^(\S.*) function (\S+)$', ln)
+        if m and not ln.startswith('['):
+            cur_file, cur_fn = m.group(1), m.group(2)
+            continue
+        m = re.match(r'^\[([^\]]+)\] (?:line (\d+) )?(.*): (SUCCESS|FAILURE|UNKNOWN|ERROR)$', ln)
+        if m:
+            saw_results = True
+            results.append({'property': m.group(1), 'status': m.group(4), 'description': m.group(3),
+                            'sourceLocation': {'file': cur_file, 'line': m.group(2) or '', 'function': cur_fn}})
+            continue
+        if ln.strip():
+            msgs.append(ln)
+    status = None
+    if 'VERIFICATION SUCCESSFUL' in out:
+        status = 'success'
+    elif 'VERIFICATION FAILED' in out:
+        status = 'failure'
+    if not saw_results or status is None:
+        return None, None, msgs[-30:]
+    return results, status, msgs
+
+
 def build_group(g, workdir):
     os.makedirs(workdir, exist_ok=True)
     man = []
@@ -282,7 +311,7 @@ def run_group(g, trace=False, workroot=None):
     if g.enforce or g.replace or g.loops:
         gi = ['goto-instrument', '--dfcc', g.entry]
         if g.enforce:
-            gi += ['--enforce-contract', g.enforce]
+            gi += ['--enforce-contract-rec' if g.enforce_rec else '--enforce-contract', g.enforce]
         for r in g.replace:
             gi += ['--replace-call-with-contract', r]
         if g.loops:
@@ -306,8 +335,8 @@ def run_group(g, trace=False, workroot=None):
     if g.unwind:
         cb += ['--unwind', str(g.unwind)]
     if trace:
-        cb += ['--trace']
-    cb += ['--json-ui', binary]
+        cb += ['--trace', '--json-ui']     # counterexample wanted: JSON with traces (only in the re-run after a failure)
+    cb += [binary]
     res.cmds.append(' '.join(cb))
     rc, out, err, dt, to = _run(cb, g.timeout)
     res.solver_s = dt
@@ -315,9 +344,14 @@ def run_group(g, trace=False, workroot=None):
     if to:
         res.reason = 'cbmc timeout after %ds' % g.timeout
         return res
-    results, status, msgs, data = parse_cbmc_json(out)
+    if trace:
+        results, status, msgs, data = parse_cbmc_json(out)
+    else:
+        # plain-text UI: the JSON UI always builds an error trace for the (intended) canary failure, which costs
+        # minutes and gigabytes on proofs over large symbolic arrays
+        results, status, msgs = parse_cbmc_text(out)
     res.log = '\n'.join(msgs)
-    with open(os.path.join(workdir, 'cbmc.json'), 'w') as f:
+    with open(os.path.join(workdir, 'cbmc.json' if trace else 'cbmc.out'), 'w') as f:
         f.write(out)
     if results is None:
         res.reason = 'cbmc produced no result (rc=%s): %s' % (rc, (res.log or err)[-1500:])
